@@ -39,10 +39,10 @@ type hostResult struct {
 
 func runC16(c *Ctx) error {
 	thorough := c.Tier == "thorough"
-	nfmt := envInt("VERIF_C16_FORMAT", 400)
-	nhost := envInt("VERIF_C16_HOSTS", 6)
+	nfmt := envInt("VERIF_C16_FORMAT", 700)
+	nhost := envInt("VERIF_C16_HOSTS", 8)
 	hostLen := envInt("VERIF_C16_HOSTLEN", 160)
-	ncomp := envInt("VERIF_C16_COMPILE", 40)
+	ncomp := envInt("VERIF_C16_COMPILE", 70)
 	nso := 0
 	if thorough {
 		nfmt = envInt("VERIF_C16_FORMAT", 20000)
